@@ -24,7 +24,7 @@ MIN_COUNTERS = {'ops_compared': 1000, 'invariant_evals': 1000,
                 'score_histories': 5, 'atexit_histories': 3, 'clock_histories': 40,
                 'clock_wakeups_compared': 100, 'nrt_clock_histories': 300,
                 'clock_histories_moved_after_self_reschedule': 20,
-                'score_identical_bundles': 20, 'ppar_histories': 300}
+                'score_identical_bundles': 20, 'ppar_histories': 1500}
 
 
 def plan(tier, seed):
@@ -41,7 +41,10 @@ def plan(tier, seed):
                        'hard_timeout': secs + 120})
     # clocks as users of the queue (real-time): tasks that move / clear other
     # pending tasks of the same tick
-    for p, ck in enumerate(['SystemClock', 'TempoClock']):   # AppClock batches expired items by design
+    # (AppClock wakes the items of one tick as a batch, by design: an item moved or
+    # cleared by an earlier item of the same tick still runs, so AppClock histories
+    # have no moves / clears - time order and first-in-first-out are judged)
+    for p, ck in enumerate(['SystemClock', 'TempoClock', 'AppClock']):
         shards.append({'name': f'clock-{ck}', 'mode': 'rt', 'kind': 'clockuser', 'clock': ck,
                        'first_case': 0, 'n': 60 if tier == 'quick' else 1200,
                        'secs': 40 if tier == 'quick' else 560, 'hard_timeout': 700})
@@ -54,7 +57,7 @@ def plan(tier, seed):
                        'n': 400 if tier == 'quick' else 60000,
                        'secs': 40 if tier == 'quick' else 560, 'hard_timeout': 700})
     # parallel pattern streams (Ppar keeps its child streams in the queue)
-    for p, (f, n) in enumerate(split(600 if tier == 'quick' else 120000, 2)):
+    for p, (f, n) in enumerate(split(3000 if tier == 'quick' else 120000, 2)):
         shards.append({'name': f'ppar{p}', 'mode': 'nrt', 'kind': 'ppar',
                        'first_case': f, 'n': n, 'secs': secs, 'hard_timeout': secs + 120})
     # exit actions: one shutdown per process
@@ -354,6 +357,8 @@ def run_clockuser(spec, acc):
                 actions[k] = ('tempo', rng.choice([1, 2, 4, 8]))
         # items that keep themselves going once: the first wake-up returns a delta
         rep = {k: rng.randint(1, 3) for k in range(n) if rng.random() < 0.3}
+        if ck == 'AppClock' and not nrt:
+            actions, rep = {}, {}
         nwakes = {}
         exact = nrt or ck != 'AppClock'
         woke = []
@@ -444,8 +449,8 @@ def run_clockuser(spec, acc):
         acc.case(h64((label, slots, sorted(actions.items()), sorted(rep.items()))),
                  nontrivial=moved_pending > 0)
         if not exact:
-            # drifting clock: compare the multiset and per-item counts only
-            okay = sorted(k for k, _ in got) == sorted(k for k, _ in exp)
+            # drifting clock (no exact times): order of the wake-ups only
+            okay = [k for k, _ in got] == [k for k, _ in exp]
         else:
             okay = [k for k, _ in got] == [k for k, _ in exp] and all(
                 abs((t - base[0]) / step - e) < 1e-6
@@ -482,13 +487,18 @@ def run_ppar(spec, acc):
     from sc3.seq.patterns.eventpatterns import Pbind, Ppar
     from sc3.seq.patterns.listpatterns import Pseq
     from sc3.seq import event as evt
-    DURS = [0, 0.25, 0.25, 0.5, 0.5, 1, 1.5]
+    DYADIC = [0, 0.25, 0.25, 0.5, 0.5, 1, 1.5]
+    # "musical" decimal values: sums are rounded, equal times only arise by the
+    # same additions - the model below does the same additions as a queue user
+    # that keys a re-queued stream at (time it was due) + delta
+    DECIMAL = [0, 0.1, 0.2, 0.2, 0.25, 0.3, 1 / 3, 0.4, 0.8, 0.9, 1.1]
 
-    def gen(rng, depth, ids):
+    def gen(rng, depth, ids, DURS=None):
+        DURS = DURS or DYADIC
         kids = []
         for _ in range(rng.randint(1, 4)):
             if depth < 2 and rng.random() < 0.2:
-                kids.append(gen(rng, depth + 1, ids))
+                kids.append(gen(rng, depth + 1, ids, DURS))
             else:
                 k = len(ids)
                 ids.append(k)
@@ -533,7 +543,9 @@ def run_ppar(spec, acc):
     for i in iter_cases(spec):
         rng = case_rng(spec['seed'], 'C09', 'ppar', i)
         ids = []
-        tree = gen(rng, 0, ids)
+        decimal = i % 2 == 1
+        tree = gen(rng, 0, ids, DECIMAL if decimal else DYADIC)
+        acc.count('ppar_histories_decimal_durations', int(decimal))
         exp, t = [], 0.0
         for c, d in model(tree):
             if c is not None:
